@@ -4,7 +4,8 @@
                                    func_calc_proj_physical, func_calc_proj_physical_with_var
      quara/objects/mprocess.py   : MProcess.calc_proj_ineq_constraint_with_var (assembly rule of the result vector),
                                    convert_var_to_hss, convert_hss_to_var (integer layout: outcome count from the length, inserted / deleted first row)
-     quara/objects/{state,povm,gate,mprocess}.py : default of on_para_eq_constraint of the eight static calc_proj_*_constraint_with_var.
+     quara/objects/{state,povm,gate,mprocess}.py : default of on_para_eq_constraint of the eight static calc_proj_*_constraint_with_var
+     quara/objects/state.py, gate.py : State / Gate.calc_proj_eq_constraint and ..._with_var (the index / slice assignments, performed on a copy).
    For ALL requested flags (None / True / False) and own flags the value every closure hands to its callee as
    on_para_eq_constraint is  resolve req own  (explicit request wins, None = the object's own): this is the clause
    "the object-level and variable-level forms compute the same point under BOTH parametrisations" at the level of the
@@ -13,6 +14,7 @@
    meaning (`x if x is not None else self._x`, nested ifs, ...) keeps them valid, while `x or self._x`, passing the own flag,
    a constant, or dropping a forwarded argument breaks them. *)
 From Coq Require Import String List Bool ZArith Lia.
+From QV.Core Require Import OF.
 From QV.Model Require Import C04_PySem C04_Proj.
 From QVGen Require Import Gen_c04_closures.
 Import ListNotations.
@@ -134,3 +136,29 @@ Theorem gen_static_defaults_true : length gen_static_defaults = 8%nat /\
   forallb (fun p => match snd p with PBool true => true | _ => false end) gen_static_defaults = true.
 Proof. vm_compute. split; reflexivity. Qed.
 Print Assumptions gen_static_defaults_true.
+
+(* ---- State / Gate equality projections: the regenerated assignment programs, interpreted (Model/C04_PySem.v interp1 / interp2) on the
+   operand, ARE the models of Model/C04_Proj.v, for every ordered field, dimension, vector / matrix and index.  (That the assignments go to
+   a copy of the operand which is then handed to the constructor / returned is enforced by the translator: any other shape is rejected.) *)
+Ltac zcases := repeat match goal with
+  | |- context [(?a <=? ?b)%Z] => destruct (Z.leb_spec a b)
+  | |- context [(?a <? ?b)%Z] => destruct (Z.ltb_spec a b)
+  | |- context [(?a =? ?b)%Z] => destruct (Z.eqb_spec a b)
+  | |- context [Nat.eqb ?a ?b] => destruct (Nat.eqb_spec a b)
+  | |- context [Nat.ltb ?a ?b] => destruct (Nat.ltb_spec a b) end; cbn [andb orb negb]; try reflexivity; try lia.
+
+Theorem gen_state_eq_proj : forall (F : OF) (sd : F) (d : nat) (v : nat -> F) (i : nat),
+  interp1 F sd (gen_state_obj_writes (Z.of_nat d)) v i = state_proj_eq F sd v i /\
+  interp1 F sd (gen_state_var_writes (Z.of_nat d)) v i = state_proj_eq_var F false sd v i /\
+  gen_state_var_true_is_arg = true.
+Proof. intros F sd d v i. unfold gen_state_obj_writes, gen_state_var_writes, gen_state_var_true_is_arg, interp1, in_slice, state_proj_eq, state_proj_eq_var.
+  cbn [fold_left wv]. repeat split; zcases. Qed.
+Print Assumptions gen_state_eq_proj.
+
+Theorem gen_gate_eq_proj : forall (F : OF) (sd : F) (d : nat) (H : nat -> nat -> F) (w : nat -> F) (a b k : nat),
+  interp2 F sd (gen_gate_obj_writes (Z.of_nat d)) H a b = gate_proj_eq F H a b /\
+  interp1 F sd (gen_gate_var_writes (Z.of_nat d)) w k = gate_proj_eq_var F false (d * d) w k /\
+  gen_gate_var_true_is_arg = true.
+Proof. intros F sd d H w a b k. unfold gen_gate_obj_writes, gen_gate_var_writes, gen_gate_var_true_is_arg, interp1, interp2, in_slice, gate_proj_eq, gate_proj_eq_var, e0.
+  cbn [fold_left wv]. rewrite <- ?Nat2Z.inj_mul. repeat split; zcases. Qed.
+Print Assumptions gen_gate_eq_proj.
